@@ -7,7 +7,7 @@
    compared with the declared meaning on every run. *)
 From Coq Require Import List Bool NArith String.
 From PC Require Import Base.Result Model.Pep440 Spec.Pep440Spec Model.Generic Model.Marker Model.PyRange
-     Model.MarkerAlg Proofs.MarkerProofs Proofs.MarkerAlgProofs Proofs.PyRangeProofs.
+     Model.MarkerAlg Proofs.MarkerProofs Proofs.MarkerAlgProofs Proofs.StringClass Proofs.ExtraClass Proofs.PyRangeProofs.
 Import ListNotations.
 Open Scope N_scope.
 
@@ -49,3 +49,14 @@ Print Assumptions C02_python_condition.
 Theorem C02_provides_extra_normal : forall s, canon_name (canon_name s) = canon_name s.
 Proof. exact canon_name_idempotent. Qed.
 Print Assumptions C02_provides_extra_normal.
+
+(* with no premise left when the three conditions are markers over string and extra comparisons (C07) *)
+Theorem C02_requirement_meaning_string_extra : forall E extras, e_extras E = Some extras ->
+  forall fuel st d p pl r, G (BR E) d -> G (BR E) p -> G (BR E) pl ->
+  intersection_fn fuel st [d; p; pl] = Ok r -> beval E r = beval E d && beval E p && beval E pl.
+Proof.
+  intros E extras Hex fuel st d p pl r Gd Gp Gpl H.
+  destruct (both_nary E extras Hex fuel st [d; p; pl]) as [I _]; [repeat constructor; assumption|].
+  destruct (I r H) as [V _]. rewrite V. cbn [forallb]. rewrite andb_true_r, andb_assoc. reflexivity.
+Qed.
+Print Assumptions C02_requirement_meaning_string_extra.
